@@ -70,6 +70,9 @@ func c06Judge(k c06Case) *vlib.Failure {
 		return vlib.Failf("middleware built from Config() answers request #%d (%s, debug=%t) differently; Config() = %+v", i%len(suite), suite[i%len(suite)], i >= len(suite), *c1)
 	}
 	m3 := new(cors.Middleware)
+	// routes are commonly built first and the configuration loaded later: handlers obtained from Wrap while the
+	// middleware is still a passthrough one follow it like any other (observe uses them from here on)
+	longLived(m3)
 	// the very same Config value that NewMiddleware received (by value: its slices are shared) goes to Reconfigure
 	if err := m3.Reconfigure(&cfg); err != nil {
 		return vlib.Failf("zero-value middleware rejects a configuration that NewMiddleware accepts: %v", err)
@@ -106,6 +109,7 @@ func c06Judge(k c06Case) *vlib.Failure {
 	if err := m1.Reconfigure(m1.Config()); err != nil || m1.Config() != nil {
 		return vlib.Failf("Reconfigure(Config()) on a passthrough middleware: err=%v, Config()=%v (want nil, nil)", err, m1.Config())
 	}
+	rewrapLongLived(m1, 1) // a handler obtained during the passthrough interlude
 	other := routeOther.Config()
 	if err := m1.Reconfigure(&other); err != nil {
 		return vlib.Failf("auxiliary configuration rejected: %v", err)
